@@ -170,20 +170,21 @@ def forwards(run):
     variants = [("linear", dict(bias=True)), ("conv2d", dict(bias=True, padding=1, padding_mode="zeros")),
                 ("conv2d", dict(bias=True, padding=(2, 1), padding_mode="reflect", dilation=(2, 1))), ("conv2d", dict(bias=False, padding="same", padding_mode="zeros", stride=(1, 1))),
                 ("layernorm", dict(affine=True, bias=True))]
-    for kind, kw in variants:
+    variants = [(k_, kw_, "qint8") for k_, kw_ in variants] + [("linear", dict(bias=True), "qint4")]
+    for kind, kw, wq in variants:
         for act in (None, "qint8"):
             for inp in ("float", "quantized"):
                 if (kind == "layernorm" or inp == "quantized") and act is None:
                     continue
-                inst = {"lemma": "forward", "module": kind, "args": str(kw), "activations": act, "input": inp}
+                inst = {"lemma": "forward", "module": kind, "args": str(kw), "activations": act, "input": inp, "weights": wq}
                 run.count_instance(**{"fwd_module": kind, "fwd_args": str(kw), "fwd_act": act, "fwd_input": inp})
                 E = engine(run)
                 qm = E.get(f"{QMOD}::quantize_module")
 
-                def prog(E2, kind=kind, kw=kw, act=act, inp=inp):
+                def prog(E2, kind=kind, kw=kw, act=act, inp=inp, wq=wq):
                     src = {"linear": mk_linear, "conv2d": mk_conv, "layernorm": mk_ln}[kind](E2, "m", **kw)
                     qt = E2.load_module(OC.QTYPE).env.lookup
-                    q = E2.call(qm, [src], {"weights": qt("qint8"), "activations": qt(act) if act else None})
+                    q = E2.call(qm, [src], {"weights": qt(wq), "activations": qt(act) if act else None})
                     # frozen twin: the quantized weight is a stored object, so the reference below dequantizes the very same tensor
                     # (that freezing does not change the weight the dynamic path computes is C09)
                     E2.call(E2.getattr(q, "freeze"), [], {})
@@ -199,8 +200,10 @@ def forwards(run):
                     else:
                         x = OC.H(E2, act, None).q(xs, name="X")
                     E2.ps["ufun_calls"] = []
+                    E2.ps["functional_log"] = []
                     out = E2.call(E2.getattr(q, "forward"), [x], {})
                     calls_q = list(E2.ps.get("ufun_calls", []))
+                    flog = [e for e in E2.ps.get("functional_log", []) if e[0] == "linear"]
                     # the reference: the float module evaluated with the dequantized quantized weight on the (de)quantized input
                     qw = E2.getattr(q, "qweight")
                     wd = OC.deq(E2, qw) if qw is not None else q.fields["weight"]
@@ -215,9 +218,10 @@ def forwards(run):
                     from qvc.nnmodel import module_forward
                     ref = module_forward(E2, ref_mod, xd)
                     calls_ref = list(E2.ps.get("ufun_calls", []))
+                    E2.ps["linear_args"] = (flog, xd, qw, OC.deq(E2, flog[0][1][0]) if (flog and len(flog[0][1]) >= 1 and is_wrapper(flog[0][1][0])) else (flog[0][1][0] if flog and flog[0][1] else None))
                     return q, x, out, calls_q, ref, calls_ref, OC.deq(E2, out) if is_wrapper(out) else out
 
-                tag = f"{kind}/{kw}/a={act}/{inp}"
+                tag = f"{kind}/{kw}/w={wq}/a={act}/{inp}"
                 try:
                     res = E.explore(Builtin("fwd", prog), lambda E2: ([], {}), name="C08.forward")
                 except Unsupported as u:
@@ -241,7 +245,16 @@ def forwards(run):
                     else:
                         run.add(f"C08/output-is-a-float-tensor[{tag}]/path{pi}", r.hyps, z3.BoolVal(isinstance(out, STensor)), "property", inst, replay=rp)
                     if kind == "linear":
-                        continue  # the value of F.linear on quantized operands is C07
+                        # the value of F.linear on quantized operands is C07; here: the functional is reached ONCE, with the (de)quantized input
+                        # of the statement, this module's quantized weight and its bias
+                        flog, xd_, qw_, fin = r.ps.get("linear_args", ([], None, None, None))
+                        okc = len(flog) == 1 and len(flog[0][1]) >= 2 and flog[0][1][1] is qw_ and (flog[0][1][2] if len(flog[0][1]) > 2 else flog[0][2].get("bias")) is q.fields.get("bias")
+                        run.add(f"C08/linear-reaches-the-functional-once-with-its-weight-and-bias[{tag}]/path{pi}", r.hyps, z3.BoolVal(bool(okc)), "property", inst, replay=rp)
+                        if okc and isinstance(fin, STensor) and isinstance(xd_, STensor):
+                            run.add(f"C08/linear-input-is-the-dequantized-quantized-input[{tag}]/path{pi}", r.hyps, same_tensor(fin, xd_), "property", inst, replay=rp, timeout=30)
+                            if act is not None:
+                                run.add(f"C08/linear-input-is-quantized-when-activations-are[{tag}]/path{pi}", r.hyps, z3.BoolVal(is_wrapper(flog[0][1][0])), "property", inst, replay=rp)
+                        continue
                     # same uninterpreted float computation: same function names, same non-tensor arguments, element-wise equal tensor arguments
                     same_len = len(calls_q) == len(calls_ref) and [c[1] for c in calls_q] == [c[1] for c in calls_ref]
                     run.add(f"C08/calls-the-same-float-functions[{tag}]/path{pi}", r.hyps, z3.BoolVal(bool(same_len)), "property", inst,
@@ -341,7 +354,16 @@ def walks(run):
                         sel = []
                     if filt == "some":
                         sel = [m for k, (n, m) in enumerate(elig) if k % 2 == 0] + [m for n, m in before if m.cls is RELU][:1]
+                    # everything that exists before the call is pre-existing: quantize() may re-wire modules, not write into float tensors
+                    for n_, m_ in before:
+                        for v_ in list(m_.fields.values()) + list((m_.fields.get("_parameters") or {}).values() if isinstance(m_.fields.get("_parameters"), dict) else []):
+                            if isinstance(v_, STensor):
+                                v_.fresh = False
+                                v_.root().fresh = False
+                    nw = len(E2.writes)
                     E2.call(qz, [model], {"modules": sel, "weights": qt("qint8"), "activations": qt(act) if act else None})
+                    E2.ps["quantize_writes"] = [f"{w[0]} {getattr(w[1], 'name', '?')}{'.' + str(w[2]) if w[0] == 'tensor-attr' else ''} at {w[4]}" for w in E2.writes[nw:]
+                                                if w[0] in ("tensor", "tensor-attr") and isinstance(w[1], STensor) and not w[1].root().fresh]
                     after = named_modules(E2, model)
                     return model, before, snap, hp, sel, after
 
@@ -360,6 +382,9 @@ def walks(run):
                         run.add(f"C08/quantize-does-not-raise[{tag}]/path{pi}", r.hyps, z3.BoolVal(False), "property", inst, {"outcome": repr(r.value)[:200]}, replay=rp)
                         continue
                     model, before, snap, hp, sel, after = r.value
+                    qwr = r.ps.get("quantize_writes", [])
+                    run.add(f"C08/float-parameters-are-not-written[{tag}]/path{pi}", r.hyps, z3.BoolVal(not qwr), "property", inst, {"writes": qwr[:4]},
+                            replay=lambda m, s, i=dict(inst): replay_tied(m, s, i))
                     run.add(f"C08/module-names-unchanged[{tag}]/path{pi}", r.hyps, z3.BoolVal([n for n, _ in before] == [n for n, _ in after]), "property", inst,
                             {"before": [n for n, _ in before], "after": [n for n, _ in after]}, replay=rp)
                     if [n for n, _ in before] != [n for n, _ in after]:
@@ -452,7 +477,7 @@ def replay_forward(model, seed, inst, kw):
     torch.manual_seed(seed)
     m, x = _native_module(inst["module"], kw)
     act = qtypes[inst["activations"]] if inst["activations"] else None
-    q = quantize_module(m, weights=qtypes["qint8"], activations=act)
+    q = quantize_module(m, weights=qtypes[inst.get("weights", "qint8")], activations=act)
     if q is None:
         return None
     try:
@@ -460,6 +485,8 @@ def replay_forward(model, seed, inst, kw):
             if act is not None:
                 with Calibration(streamline=False):
                     q(x)
+                if inst["module"] == "linear":
+                    q.input_scale.fill_(float(x.abs().max()) / 16)    # a coarse input scale: skipping the input quantization is visible
             xin = x
             if inst["input"] == "quantized":
                 from optimum.quanto import absmax_scale, quantize_activation
@@ -477,6 +504,38 @@ def replay_forward(model, seed, inst, kw):
         if not torch.allclose(out, want, atol=1e-4, rtol=1e-4):
             return {"module": inst["module"], "args": kw, "what": "output differs from the float module evaluated with the dequantized quantized weight",
                     "max_abs_diff": (out - want).abs().max().item()}
+    elif inst["module"] == "linear" and inst["input"] == "float":
+        import copy
+        from optimum.quanto import quantize_activation
+        ref = copy.deepcopy(m)
+        with torch.no_grad():
+            ref.weight.copy_(q.qweight.dequantize())
+            xd = quantize_activation(x, act, q.input_scale).dequantize()
+            want = ref(xd)
+        got = out.dequantize() if hasattr(out, "dequantize") else out
+        step = q.output_scale.item()
+        if (got - want).abs().max().item() > 1.01 * step + 1e-5:
+            return {"module": "linear", "weights": inst.get("weights"), "what": "output differs by more than one output step from the float module on the dequantized weight and (de)quantized input",
+                    "max_abs_diff": (got - want).abs().max().item(), "output_step": step}
+    return None
+
+
+def replay_tied(model, seed, inst):
+    """A float Parameter that something else still holds (tied weights) keeps its values across quantize()."""
+    import torch
+    from torch import nn
+    from optimum.quanto import qtypes, quantize
+
+    torch.manual_seed(seed)
+    emb = nn.Embedding(16, 8)
+    head = nn.Linear(8, 16, bias=False)
+    head.weight = emb.weight
+    model_ = nn.Sequential(emb, head)
+    before = emb.weight.detach().clone()
+    act = qtypes[inst["activations"]] if inst.get("activations") else None
+    quantize(model_, weights=qtypes["qint8"], activations=act)
+    if tuple(emb.weight.shape) != tuple(before.shape) or not torch.equal(emb.weight.detach(), before):
+        return {"what": "quantize() modified a float Parameter that another module still holds (tied weights)", "shape_before": list(before.shape), "shape_after": list(emb.weight.shape)}
     return None
 
 
@@ -532,6 +591,6 @@ def replay_file(path):
     rec = json.load(open(path))
     inst = rec["instance"]
     kw = eval(inst.get("args", "{}")) if "args" in inst else {}
-    r = {"twin": lambda: replay_twin({}, 0, inst, kw), "forward": lambda: replay_forward({}, 0, inst, kw), "quantize() walk": lambda: replay_walk({}, 0, inst)}[inst["lemma"]]()
+    r = {"twin": lambda: replay_twin({}, 0, inst, kw), "forward": lambda: replay_forward({}, 0, inst, kw), "quantize() walk": lambda: (replay_tied({}, 0, inst) if "float-parameters-are-not-written" in rec.get("obligation", "") else replay_walk({}, 0, inst))}[inst["lemma"]]()
     print(json.dumps(r, indent=1, default=str))
     return 1 if r else 0
